@@ -5,7 +5,7 @@ from .. import components
 
 def comps(ctx, results):
     r = components.run_components(ctx, ctx.n(700, 30000), "C12-components", pid="C12")
-    return {"violations": r["violations"], "disagreements": r["disagreements"], "evaluations": r["evaluations"], "distinct_nontrivial": r["distinct_nontrivial"],
+    return {"violations": r["violations"], "disagreements": r["disagreements"], "evaluations": r["evaluations"], "validated": r["validated"], "distinct_nontrivial": r["distinct_nontrivial"],
             "samples": r["samples"], "notes": {"component_cases": r["evaluations"], "component_cases_compared_with_model": r["validated"], "component_distribution": r["distribution"]}}
 
 
